@@ -129,7 +129,9 @@ def check_scorer(ctx, pkg, name, width, inner, mode):
     if mode == "shape-known":
         # whether a (k, width) integer array is accepted depends on its entries, never on the number k of cuts
         kkey = Atom("sym", "k").key
-        badk = [p for p in paths if p.outcome == "raise" and p.facts and any(a.key == kkey for a in atoms_of_cond(p.facts[-1][0]))]
+        # a deciding guard that looks at the number of rows ONLY (a guard that also reads entries, e.g. `cuts.size > 0 and
+        # cuts.min() < 0`, is about the entries)
+        badk = [p for p in paths if p.outcome == "raise" and p.facts and atoms_of_cond(p.facts[-1][0]) and all(a.key == kkey for a in atoms_of_cond(p.facts[-1][0]))]
         ctx.check(not badk, "C13.c CHECK-COMPLETE", f"{name}|row-count", raise_loc(badk[0], loc) if badk else loc, "no rejection is decided by the number of rows of the cuts array (a test of the wrong dimension)", found=repr(badk[0].facts[-1][0])[:120] if badk else "no such guard", expected="guards on the last dimension, the dtype, the entries")
     cuts_s = sym("cuts")
     n = lift(N)
